@@ -319,3 +319,15 @@ Lemma ex_event_chain :
   ev_call K0 ex_event "note" = VNum (F (14 # 1)) /\ Qred (toQ (vnum (ev_call K0 ex_event "midinote"))) = 62 /\
   Qred (toQ (vnum (ev_call K0 ex_event "freq"))) = 62.
 Proof. vm_compute. repeat split; reflexivity. Qed.
+
+Definition pdelta_witness : pat :=
+  PChain [PDelta (VNum (F (1 # 2))) (PBind [("instrument"%string, VRep (VSym "c14a")); ("dur"%string, VSeq [VNum (F 1); VNum (F 1); VNum (F 1)])]);
+          PBind [("pan"%string, VSeq [VNum (I 1); VNum (I 2); VNum (I 3); VNum (I 4)])]].
+Definition pans (l : list bundle) : list Z :=
+  flat_map (fun b => match snd b with
+                     | MNew _ _ _ _ ps => flat_map (fun p => if String.eqb (fst p) "pan" then match snd p with I z => [z] | _ => [] end else []) ps
+                     | _ => [] end) l.
+Lemma pdelta_stale_input_refuted_unpatched_l :
+  pans (sends unpatched K0 the_lib 0 10 6 pdelta_witness legato_half 0) = [1; 3; 4]%Z /\
+  pans (sends patched K0 the_lib 0 10 6 pdelta_witness legato_half 0) = [2; 3; 4]%Z.
+Proof. vm_compute. split; reflexivity. Qed.
